@@ -85,7 +85,11 @@ func (fr *frame) callWithArgs(st *state, c *ssa.CallCommon, instr ssa.Instructio
 				if label == "" {
 					label = fmt.Sprintf("c%d", i+1)
 				}
-				fr.oblige(st, "at", text+"."+label, pos, env.evalBool(cl.Expr, cl.Src), cl.Src)
+				if t, ok := fr.evalClause(env, cl.Expr, cl.Src); ok {
+					fr.oblige(st, "at", text+"."+label, pos, t, cl.Src)
+				} else {
+					fr.oblige(st, "at", text+"."+label+".attach", pos, "false", "the clause "+cl.Src+" names something that is not in scope at this call (renamed local?): it cannot be checked")
+				}
 			}
 		}
 	}
@@ -112,7 +116,11 @@ func (fr *frame) callWithArgs(st *state, c *ssa.CallCommon, instr ssa.Instructio
 			if label == "" {
 				label = fmt.Sprintf("c%d", i+1)
 			}
-			fr.oblige(st, "at", text+".after."+label, pos, env.evalBool(cl.Expr, cl.Src), cl.Src)
+			if t, ok := fr.evalClause(env, cl.Expr, cl.Src); ok {
+				fr.oblige(st, "at", text+".after."+label, pos, t, cl.Src)
+			} else {
+				fr.oblige(st, "at", text+".after."+label+".attach", pos, "false", "the clause "+cl.Src+" names something that is not in scope after this call (renamed local?): it cannot be checked")
+			}
 		}
 	}
 	if fr.top && fr.fc.c.Propagates {
@@ -187,7 +195,7 @@ func (fr *frame) callRepo(st *state, g *ssa.Function, ci *closureInfo, c *ssa.Ca
 	e := fc.e
 	key := e.keyOf(g)
 	ct := e.contracts.Funcs[key]
-	inline := (ct != nil && ct.Inline) || ci != nil || fc.c.Inlines[key]
+	inline := (ct != nil && ct.Inline) || ci != nil || fc.c.Inlines[key] || (ct == nil && autoInlinable(g))
 	if inline && fr.depth < maxInlineDepth && !fr.recursive(g) {
 		if ct != nil && len(ct.Requires) > 0 {
 			// the preconditions of an expanded callee are still checked at the call
@@ -719,7 +727,6 @@ func (fr *frame) ownParam(j int) string {
 	return ""
 }
 
-
 // dispatchClosed: a call of an unexported interface method can only reach types of the declaring package
 // (closed world): case split on the dynamic type over the pointer types of that package that have the method,
 // expanding the (possibly promoted) method for each; any other dynamic type gets the generic treatment.
@@ -813,4 +820,62 @@ func (fr *frame) dispatchClosed(st *state, c *ssa.CallCommon, pos token.Pos, rec
 	st.alloc = merged.alloc
 	st.reach = merged.reach
 	return res, true
+}
+
+// autoInlinable: a small helper without a contract (no loop, no recursion, no defer / go, a handful of
+// instructions) is expanded at its call sites instead of being treated as an unknown callee - so that extracting a
+// few lines into a helper does not need a contract of its own.
+func autoInlinable(g *ssa.Function) bool {
+	if g == nil || len(g.Blocks) == 0 || len(g.Blocks) > 16 || g.Recover != nil {
+		return false
+	}
+	// no cycle in the control-flow graph (block numbers are not topological: the join of a || chain comes first)
+	color := make([]int, len(g.Blocks))
+	var cyclic func(b *ssa.BasicBlock) bool
+	cyclic = func(b *ssa.BasicBlock) bool {
+		color[b.Index] = 1
+		for _, s := range b.Succs {
+			if color[s.Index] == 1 || (color[s.Index] == 0 && cyclic(s)) {
+				return true
+			}
+		}
+		color[b.Index] = 2
+		return false
+	}
+	if cyclic(g.Blocks[0]) {
+		return false
+	}
+	n := 0
+	for _, b := range g.Blocks {
+		for _, in := range b.Instrs {
+			switch x := in.(type) {
+			case *ssa.DebugRef:
+				continue
+			case *ssa.Defer, *ssa.Go, *ssa.Select, *ssa.Range, *ssa.Next:
+				return false
+			case *ssa.Call:
+				if x.Call.StaticCallee() == g {
+					return false
+				}
+			}
+			n++
+		}
+	}
+	return n <= 40
+}
+
+
+// evalClause evaluates a body-level clause; ok is false when it names an identifier that is not in scope (the clause
+// no longer attaches to the code - reported as one failed obligation of that clause, not of the whole function).
+func (fr *frame) evalClause(env *specEnv, x SExpr, src string) (t string, ok bool) {
+	defer func() {
+		if r := recover(); r != nil {
+			if ee, is := r.(engineError); is && strings.Contains(string(ee), "unknown identifier") {
+				ok = false
+				return
+			}
+			panic(r)
+		}
+	}()
+	return env.evalBool(x, src), true
 }
